@@ -244,6 +244,14 @@ def handle : List String → String
     | some st, some x, some last, some q =>
       posOut (Desc.walletPositionOf (Desc.bip32WalletSpk env st x) [0, 1] q last)
     | _, _, _, _ => "bad-op"
+  | ["addr", net, script] =>
+    -- the address a wallet of network `net` hands out for this output (C06's codec)
+    match fromHex? script with
+    | some sc =>
+      (match Address.address hash256 sc net with
+       | .ok a => if a.isEmpty then "ok -" else "ok " ++ cpsOut (a.map Char.ofNat)
+       | .error _ => "err value")
+    | none => "bad-op"
   | ["w.key", st, sec] =>
     match keyType? st, fromHex? sec with
     | some st, some sec => (match Desc.keyScript env st sec with | some s => "ok " ++ toHex s | none => "err value")
